@@ -27,7 +27,7 @@ MON_BASE = {"C01": 4, "C02": 5, "C03": 6, "C04": 7, "C08": 8, "C04x": 9, "CRASH"
 GRIDS = {
     "quick": [
         ("gridA", dict(MaxFrames=7, MinSet="{1,2,3}", MaxSet="{1,2,3}", SilSet="{0,1,2}", IMinSet="{0,1,2}", ISilSet="{0,1}")),
-        ("gridInit", dict(MaxFrames=8, MinSet="{1,3}", MaxSet="{4}", SilSet="{0,1}", IMinSet="{3}", ISilSet="{2}")),
+        ("gridInit", dict(MaxFrames=8, MinSet="{1,3}", MaxSet="{4}", SilSet="{0,1}", IMinSet="{2,3}", ISilSet="{1,2}")),
     ],
     "thorough": [
         ("gridA", dict(MaxFrames=9, MinSet="{1,2,3,4}", MaxSet="{1,2,3,4}", SilSet="{0,1,2,3}", IMinSet="{0,1,2,3}", ISilSet="{0,1,2}")),
